@@ -1,6 +1,6 @@
 #!/usr/bin/env python3
-"""Engine M (C14): MIR -> SMT-LIB for zorro's specialised multiply-by-a, plus ground constant
-relations.  The MIR is re-dumped from /repo's current tree on every run.
+"""Engine M (C14): MIR -> SMT-LIB for zorro's specialised multiply-by-a (and add_b when the tree
+overrides it), plus ground constant relations.  The MIR is re-dumped from /repo's current tree on every run.
 
 Claimed:  mul_by_a(x) = COEFF_A * x for every base-field element x (solver, all x in [0,p));
           generator on y^2 = x^3 + a x + b; COFACTOR = 1, COFACTOR_INV = 1; scalar modulus = 2^255 - 19
@@ -33,11 +33,16 @@ class CannotEncode(Exception):
     pass
 
 
-def translate(body, p):
-    """straight-line MIR over a fixed vocabulary of field operations -> SMT Int term for _0"""
-    env = {"_1": "x"}
+def translate(body, p, consts=None):
+    """loop-free MIR over a fixed vocabulary of field operations -> list of paths
+    (path condition as SMT Bool terms, SMT Int term for _0) plus shared definitions.
+    Values: field elements and BigInt<4> are Int terms (canonical representative / integer value),
+    booleans are Bool terms.  `(_k.0: BigInt<4>)` of a field element is its Montgomery form x * 2^256 mod p.
+    Branches (switchInt on a bool) fork the path."""
+    consts = consts or {}
     defs = []
     n = [0]
+    R = pow(2, 256, p)
 
     def fresh(expr):
         n[0] += 1
@@ -45,44 +50,85 @@ def translate(body, p):
         defs.append("(define-fun %s () Int (mod %s %d))" % (name, expr, p))
         return name
 
-    def val(tok):
-        tok = tok.strip()
-        tok = re.sub(r"^(move|copy)\s+", "", tok)
-        if tok not in env:
-            raise CannotEncode("use of unknown local %s" % tok)
-        return env[tok]
-
     blocks = re.findall(r"\n\s*(bb\d+)(?: \(cleanup\))?: \{(.*?)\n\s*\}", body, re.S)
     if not blocks:
         raise CannotEncode("no basic blocks")
     order = {b: k for k, (b, _) in enumerate(blocks)}
-    cur = "bb0"
-    seen = set()
-    while True:
-        if cur in seen:
-            raise CannotEncode("loop in MIR")
-        seen.add(cur)
+    paths = []
+    work = [("bb0", {"_1": "x"}, [], 0)]
+    while work:
+        cur, env, cond, steps = work.pop()
+        if steps > 64:
+            raise CannotEncode("more than 64 blocks on one path (loop?)")
+        if len(paths) + len(work) > 64:
+            raise CannotEncode("more than 64 paths")
+        if cur not in order:
+            raise CannotEncode("unknown block %s" % cur)
+
+        def val(tok):
+            tok = re.sub(r"^(move|copy)\s+", "", tok.strip())
+            if tok not in env:
+                raise CannotEncode("use of unknown local %s" % tok)
+            return env[tok]
+
         text = blocks[order[cur]][1]
         nxt = None
+        done = False
         for line in [l.strip() for l in text.split("\n") if l.strip()]:
             if line.startswith("StorageLive") or line.startswith("StorageDead") or line.startswith("//") or line.startswith("nop"):
                 continue
             if line == "return;":
                 if "_0" not in env:
                     raise CannotEncode("return without value")
-                return env["_0"], defs
-            m = re.fullmatch(r"(_\d+) = &(?:mut )?(_\d+);", line)
+                paths.append((cond, env["_0"]))
+                done = True
+                break
+            m = re.fullmatch(r"goto -> (bb\d+);", line)
+            if m:
+                nxt = m.group(1)
+                break
+            m = re.fullmatch(r"switchInt\((?:move|copy) (_\d+)\) -> \[0: (bb\d+), otherwise: (bb\d+)\];", line)
+            if m:
+                c = val(m.group(1))
+                work.append((m.group(2), dict(env), cond + ["(not %s)" % c], steps + 1))
+                work.append((m.group(3), dict(env), cond + [c], steps + 1))
+                done = True
+                break
+            m = re.fullmatch(r"(_\d+) = &(?:mut )?(_\d+);", line) or re.fullmatch(r"(_\d+) = (?:move|copy) (_\d+);", line) or re.fullmatch(r"(_\d+) = &\(\*(_\d+)\);", line) or re.fullmatch(r"(_\d+) = (?:move|copy) \(\*(_\d+)\);", line)
             if m:
                 env[m.group(1)] = val(m.group(2))
                 continue
-            m = re.fullmatch(r"(_\d+) = (?:move|copy) (_\d+);", line)
+            m = re.fullmatch(r"(_\d+) = &?\((?:\*)?(_\d+)\.0: ark_ff::BigInt<4>\);", line) or re.fullmatch(r"(_\d+) = (?:move|copy) \((?:\*)?(_\d+)\.0: ark_ff::BigInt<4>\);", line)
             if m:
-                env[m.group(1)] = val(m.group(2))
+                env[m.group(1)] = fresh("(* %s %d)" % (val(m.group(2)), R))
                 continue
-            m = re.fullmatch(r"(_\d+) = &\(\*(_\d+)\);", line)
+            m = re.fullmatch(r"(_\d+) = Not\((?:move|copy) (_\d+)\);", line)
             if m:
-                env[m.group(1)] = val(m.group(2))
+                env[m.group(1)] = "(not %s)" % val(m.group(2))
                 continue
+            m = re.fullmatch(r"(_\d+) = const (true|false);", line)
+            if m:
+                env[m.group(1)] = m.group(2)
+                continue
+            m = re.fullmatch(r"(_\d+) = const <.*? as (?:ark_ec::short_weierstrass::)?SWCurveConfig>::(COEFF_A|COEFF_B);", line)
+            if m:
+                key = {"COEFF_A": "a", "COEFF_B": "b"}[m.group(2)]
+                if key not in consts:
+                    raise CannotEncode("constant %s not exported" % m.group(2))
+                env[m.group(1)] = str(int(consts[key]))
+                continue
+            m = re.fullmatch(r"(_\d+) = BigInt::<4>::(one|zero)\(\) -> \[return: (bb\d+), unwind[^\]]*\];", line)
+            if m:
+                env[m.group(1)] = "1" if m.group(2) == "one" else "0"
+                nxt = m.group(3)
+                break
+            m = re.fullmatch(r"(_\d+) = <&?(?:ark_ff::)?BigInt<4> as PartialEq>::(eq|ne)\((.*)\) -> \[return: (bb\d+), unwind[^\]]*\];", line)
+            if m:
+                a = [val(t) for t in m.group(3).split(",")]
+                e = "(= %s %s)" % (a[0], a[1])
+                env[m.group(1)] = e if m.group(2) == "eq" else "(not %s)" % e
+                nxt = m.group(4)
+                break
             m = re.fullmatch(r"(_\d+) = <(.*?)>::(\w+)\((.*)\) -> \[return: (bb\d+), unwind[^\]]*\];", line)
             if m:
                 dst, ty, fn, args, ret = m.groups()
@@ -102,14 +148,30 @@ def translate(body, p):
                     env[dst] = fresh("(* 2 %s)" % a[0])
                 elif fn == "square" and len(a) == 1:
                     env[dst] = fresh("(* %s %s)" % (a[0], a[0]))
+                elif fn in ("eq", "ne") and trait.startswith("PartialEq") and len(a) == 2:
+                    e = "(= %s %s)" % (a[0], a[1])
+                    env[dst] = e if fn == "eq" else "(not %s)" % e
+                elif fn == "is_zero" and len(a) == 1:
+                    env[dst] = "(= %s 0)" % a[0]
+                elif fn == "is_one" and len(a) == 1:
+                    env[dst] = "(= %s 1)" % a[0]
+                elif fn == "zero" and len(a) == 0:
+                    env[dst] = "0"
+                elif fn == "one" and len(a) == 0:
+                    env[dst] = "1"
                 else:
                     raise CannotEncode("call outside the vocabulary: %s::%s" % (trait, fn))
                 nxt = ret
                 break
             raise CannotEncode("statement outside the vocabulary: %s" % line)
+        if done:
+            continue
         if nxt is None:
             raise CannotEncode("block %s without recognised terminator" % cur)
-        cur = nxt
+        work.append((nxt, env, cond, steps + 1))
+    if not paths:
+        raise CannotEncode("no path reaches return")
+    return paths, defs
 
 
 def run(solver_cmd, text, timeout=60):
@@ -152,14 +214,29 @@ def main():
     body = m.group(1)
     queries = []
     try:
-        res, defs = translate(body, p)
-        q = "(set-logic ALL)\n(declare-const x Int)\n(assert (and (<= 0 x) (< x %d)))\n" % p + "\n".join(defs) + "\n(assert (not (= %s (mod (* %d x) %d))))\n(check-sat)\n" % (res, a, p)
-        queries.append(("mul_by_a(x) = COEFF_A * x for every x in [0,p)", q, "unsat", True))
+        paths, defs = translate(body, p, consts)
+        head = "(set-logic ALL)\n(declare-const x Int)\n(assert (and (<= 0 x) (< x %d)))\n" % p + "\n".join(defs) + "\n"
+
+        def wrong(k):
+            # some path is taken and returns something else than k * x
+            alts = ["(and %s (not (= (mod %s %d) (mod (* %d x) %d))))" % (" ".join(c) if c else "true", r_, p, k, p) for c, r_ in paths]
+            return "(assert (or %s))\n(check-sat)\n" % " ".join(alts)
+
+        queries.append(("mul_by_a(x) = COEFF_A * x for every x in [0,p) (%d path(s))" % len(paths), head + wrong(a), "unsat", True))
         # vacuity twin: the same body against (COEFF_A + 1) must be refutable
-        q2 = "(set-logic ALL)\n(declare-const x Int)\n(assert (and (<= 0 x) (< x %d)))\n" % p + "\n".join(defs) + "\n(assert (not (= %s (mod (* %d x) %d))))\n(check-sat)\n" % (res, a + 1, p)
-        queries.append(("twin: mul_by_a(x) = (COEFF_A+1) * x is refutable", q2, "sat", False))
+        queries.append(("twin: mul_by_a(x) = (COEFF_A+1) * x is refutable", head + wrong(a + 1), "sat", False))
     except CannotEncode as e:
         inconclusive.append("mul_by_a: cannot encode: %s" % e)
+    # add_b is normally inherited (x + COEFF_B); if the tree overrides it, the override must agree with the declared b
+    mb = re.search(r"\nfn zorro::g1::<impl at [^>]*>::add_b\(_1: " + FQ + r"\) -> " + FQ + r" \{(.*?)\n\}\n", mir, re.S)
+    if mb:
+        try:
+            bpaths, bdefs = translate(mb.group(1), p, consts)
+            bhead = "(set-logic ALL)\n(declare-const x Int)\n(assert (and (<= 0 x) (< x %d)))\n" % p + "\n".join(bdefs) + "\n"
+            alts = ["(and %s (not (= (mod %s %d) (mod (+ x %d) %d))))" % (" ".join(c) if c else "true", r_, p, int(consts["b"]), p) for c, r_ in bpaths]
+            queries.append(("overridden add_b(x) = x + COEFF_B for every x in [0,p)", bhead + "(assert (or %s))\n(check-sat)\n" % " ".join(alts), "unsat", True))
+        except CannotEncode as e:
+            inconclusive.append("add_b is overridden and cannot be encoded: %s" % e)
     gx, gy, bb = int(consts["gx"]), int(consts["gy"]), int(consts["b"])
     ground = [
         ("generator satisfies y^2 = x^3 + a x + b (mod p) with the declared coefficients", "(= (mod (* %d %d) %d) (mod (+ (* %d %d %d) (* %d %d) %d) %d))" % (gy, gy, p, gx, gx, gx, a, gx, bb, p)),
@@ -186,9 +263,13 @@ def main():
         if ok:
             continue
         agree = set(verdicts.values())
+        sat_by = [k for k, (sn, _) in enumerate(SOLVERS) if verdicts[sn] == "sat"]
+        if ("mul_by_a" in name or "add_b" in name) and expect == "unsat" and sat_by:
+            # a counterexample from any one solver is enough: it is evaluated natively below
+            agree = {"sat"}
         if len(agree) == 1 and agree <= {"sat", "unsat"}:
             if "mul_by_a" in name and expect == "unsat":
-                v, _, out = run(SOLVERS[0][1], q + "(get-model)\n")
+                v, _, out = run(SOLVERS[sat_by[0]][1], q + "(get-model)\n")
                 xm = re.search(r"define-fun x \(\) Int\s+(\d+)", out)
                 xs = [xm.group(1)] if xm else []
                 xs += ["1", "2", str(p - 1), str(seed + 12345)]
@@ -196,6 +277,19 @@ def main():
                 path = os.path.join(VERIF, "replays", "C14", "mul_by_a.json")
                 os.makedirs(os.path.dirname(path), exist_ok=True)
                 json.dump({"property": "C14", "what": name, "x": xs, "native": rp.stdout, "cmd": "%s zorro-mul-by-a %s" % (SYMARK, " ".join(xs))}, open(path, "w"), indent=1)
+                if rp.returncode == 1:
+                    violations.append((name, path))
+                else:
+                    inconclusive.append("%s: solver says sat but the native evaluation agrees -> encoding error" % name)
+            elif "add_b" in name:
+                sb = [k for k, (sn, _) in enumerate(SOLVERS) if verdicts[sn] == "sat"]
+                v, _, out = run(SOLVERS[sb[0]][1], q + "(get-model)\n")
+                xm = re.search(r"define-fun x \(\) Int\s+(\d+)", out)
+                xs = ([xm.group(1)] if xm else []) + ["0", "1", str(p - 1)]
+                rp = sh([SYMARK, "zorro-add-b"] + xs)
+                path = os.path.join(VERIF, "replays", "C14", "add_b.json")
+                os.makedirs(os.path.dirname(path), exist_ok=True)
+                json.dump({"property": "C14", "what": name, "x": xs, "native": rp.stdout, "cmd": "%s zorro-add-b %s" % (SYMARK, " ".join(xs))}, open(path, "w"), indent=1)
                 if rp.returncode == 1:
                     violations.append((name, path))
                 else:
@@ -218,10 +312,10 @@ def main():
             "rule": "one obligation = one SMT query (integer arithmetic mod p) discharged by three solvers; the mul_by_a query quantifies over every field element, the others are ground relations over the constants exported by the compiled crate",
             "samples": results[:4], "obligations": len(obligations), "discharged": sum(1 for o in obligations if o),
             "solver_time_s": round(solver_s, 2), "functions_encoded": ["curve::zorro::g1::Parameters::mul_by_a (from the MIR dump of /repo's current tree; calls modelled by ark_ff::Fp's documented ring contract on representatives in [0,p))"],
-            "bounds": "none for mul_by_a (loop-free, all x in [0,p)); ground relations are exact",
+            "bounds": "none for mul_by_a (loop-free; every path of the MIR body is followed -- branches on field / raw Montgomery-limb comparisons fork the path -- for all x in [0,p)); <= 64 paths, <= 64 blocks per path; an overridden add_b is checked the same way against x + COEFF_B; ground relations are exact",
             "outside_claim": "primality of the base-field modulus p and of r, and #E(F_p) = r: number-theoretic facts about 255-bit constants that an SMT solver cannot decide and for which no certificate generator is available offline; only the necessary Hasse-interval condition is checked",
             "checker_cmd": "z3 4.8.12, z3 5.1.0, cvc5 1.0 (all three must agree)", "trusted_base": ["rustc nightly MIR dump", "ark_ff::Fp ring contract", "three SMT solvers"],
-            "all_results": results, "explanation": "MIR of the leaf function is translated statement by statement into integer arithmetic mod p; unsat of the negated equation = holds for every field element",
+            "all_results": results, "explanation": "MIR of the leaf function is translated statement by statement into integer arithmetic mod p (field elements as canonical representatives, the raw limbs x.0 as x * 2^256 mod p); unsat of the disjunction over paths of (path condition and result differs) = holds for every field element; a counterexample from any solver is evaluated natively (symark zorro-mul-by-a) before it is reported",
         },
         "assumptions": ["ark_ff::Fp Add/Sub/Mul/Neg implement the ring operations on canonical representatives", "the constants are those exported by the compiled crate (symark zorro-consts)"],
         "wall_s": round(wall, 2), "violations": len(violations), "inconclusive": inconclusive,
